@@ -28,7 +28,7 @@ package vm
 //@   ensures wf(m) && sameDomain(m) && balNonNil(m)
 //@   modifies map[machine.Asset]*machine.MonetaryInt, machine.Funding.*
 //@   nopanic
-//@   property C01
+//@   property C01 C03
 
 //@ func (*vm.Machine).withdrawAlways
 //@   requires wf(m) && mon.Amount != nil && mark(account, mon.Asset) && balNonNil(m)
@@ -41,7 +41,7 @@ package vm
 //@   ensures wf(m) && sameDomain(m) && balNonNil(m)
 //@   modifies map[machine.Asset]*machine.MonetaryInt, machine.Funding.*
 //@   nopanic
-//@   property C01
+//@   property C01 C03
 
 //@ func (*vm.Machine).credit
 //@   requires wf(m) && balNonNil(m) && mark(account, funding.Asset)
@@ -60,7 +60,7 @@ package vm
 //@   loop 1 decreases len(funding.Parts) - rangeindex
 //@   modifies map[machine.Asset]*machine.MonetaryInt
 //@   nopanic
-//@   property C01
+//@   property C01 C03
 
 //@ func (*vm.Machine).repay
 //@   requires wf(m) && balNonNil(m)
@@ -75,7 +75,7 @@ package vm
 //@   loop 1 decreases len(funding.Parts) - rangeindex
 //@   modifies map[machine.Asset]*machine.MonetaryInt
 //@   note a part whose account has no balance table panics (nil map write); that path is C12's concern and is not constrained here
-//@   property C01
+//@   property C01 C03
 
 // ---- the interpreter step
 // Quantities of C01, all computed from the machine state (no history needed):
@@ -139,7 +139,7 @@ package vm
 //@   ensures err == nil ==> len(m.Stack) == 0
 //@   loop 1 invariant minv(m) && sameDomain(m) && m.Balances != nil && len(m.Resources) == len(m.UnresolvedResources)
 //@   loop 1 invariant forall a machine.AccountAddress, t machine.Asset :: a != "world" ==> D(m, a, t) <= old(D(m, a, t))
-//@   property C01
+//@   property C01 C03
 
 // Run: an execution error yields no result; otherwise the postings handed to the ledger are the machine's, field by field, in order.
 //@ func vm.Run
@@ -170,20 +170,20 @@ package vm
 //@   requires live >= 0 && saved >= 0
 //@   requires bal + saved >= floor
 //@   ensures init + recvd - sent >= floor
-//@   property C01
+//@   property C01 C03
 //@ lemma c01_take_all_step(bal int, bal2 int, saved int, floor int, od int)
 //@   requires bal + saved >= floor && saved >= 0
 //@   requires bal2 >= min(bal, 0 - od)
 //@   ensures bal2 + saved >= min(floor, 0 - od)
-//@   property C01
+//@   property C01 C03
 //@ lemma c01_save_step(bal int, bal2 int, saved int, d int, d2 int, floor int)
 //@   requires bal + saved >= floor && bal2 <= bal && d2 - bal2 == d - bal
 //@   ensures bal2 + (saved + (bal - bal2)) >= floor && saved + (bal - bal2) >= saved && d2 + (bal - bal2) == d
-//@   property C01
+//@   property C01 C03
 //@ lemma c01_other_step(bal int, bal2 int, saved int, floor int)
 //@   requires bal + saved >= floor && bal2 >= bal
 //@   ensures bal2 + saved >= floor
-//@   property C01
+//@   property C01 C03
 
 //@ func (*vm.Machine).SetVarsFromJSON
 //@   modifies Machine.Vars, map[string]string, map[string]machine.Value
